@@ -107,8 +107,8 @@ theorem no_deadlock (sys : Sys S Op Out) (s0 : S) (progs : List (List Op))
     `LRI`/`LRU` on every run (class, method, touches private state?, every such reference inside a lock
     region?, has a lock region?, how the lock is taken, number of cache operations invoked outside
     every lock region).  A lock region is recognised in any of its equivalent spellings:
-    `with self._lock:`, `self._lock.acquire(); try: … finally: self._lock.release()`, or a call of a
-    private helper that is itself wholly locked. -/
+    `with self._lock:`, `self._lock.acquire(); try: … finally: self._lock.release()`, a locking decorator,
+    or a call of a private helper that is itself wholly locked. -/
 
 /-- every public LRI/LRU method that touches ring/dict/lookup-table state does so only inside a lock region -/
 theorem all_state_methods_protected :
